@@ -372,7 +372,7 @@ fn spec_from_json(v: &Value) -> (Vec<DocSpec>, bool) {
 
 const BLOCK: u64 = 6000;
 fn cases(tier: Tier) -> u64 {
-    tier.pick(100_000, 2_000_000)
+    tier.pick(400_000, 2_000_000)
 }
 
 impl Property for C16P {
